@@ -34,12 +34,13 @@ struct Job {
 }
 
 /// One history. Returns Err(message) on a mismatch at a quiet point.
-fn history(rng: &mut Rng, initial: usize, max: usize, log: &mut Vec<String>) -> Result<(usize, usize), String> {
+fn history(rng: &mut Rng, initial: usize, max: usize, with_panics: bool, log: &mut Vec<String>) -> Result<(usize, usize, usize), String> {
     let mut pool = Pool::new(initial, max);
     let in_service = Arc::new(AtomicUsize::new(0));
     let mut outstanding: Vec<Job> = Vec::new();
     let mut next_id = 0usize;
     let mut races = 0usize;
+    let mut panics = 0usize;
     let mut quiet_points = 0usize;
     let patience = Duration::from_secs(10);
     let phases = rng.range(2, 5);
@@ -48,6 +49,19 @@ fn history(rng: &mut Rng, initial: usize, max: usize, log: &mut Vec<String>) -> 
         let burst = rng.range(1, 4);
         let mut last_was_finish = false;
         for _ in 0..burst {
+            if with_panics && rng.chance(1, 6) {
+                // a connection handler that panics (a fault in interface code): the connection
+                // is gone at once, so it never counts as outstanding; the pool must be none the
+                // worse for it
+                pool.execute(|| panic!("handler panic injected by the C14 stress workload"));
+                log.push("submit a job that panics".into());
+                panics += 1;
+                // let it happen before the next operation half of the time
+                if rng.chance(1, 2) {
+                    std::thread::sleep(Duration::from_micros(200));
+                }
+                continue;
+            }
             let finish = !outstanding.is_empty() && rng.chance(1, 2);
             if finish {
                 // (a job told to end before it was dequeued simply runs and ends at once later)
@@ -126,14 +140,25 @@ fn history(rng: &mut Rng, initial: usize, max: usize, log: &mut Vec<String>) -> 
     for j in &outstanding {
         j.release.store(true, Ordering::SeqCst);
     }
-    drop(pool);
-    verdict.map(|_| (races, quiet_points))
+    // dropping the pool is what listen() does when it returns: it must not blow up either
+    if std::panic::catch_unwind(std::panic::AssertUnwindSafe(move || drop(pool))).is_err() && verdict.is_ok() {
+        verdict = Err("dropping the pool (what listen() does when it returns) panicked".into());
+    }
+    verdict.map(|_| (races, quiet_points, panics))
 }
 
 pub fn run(ctx: &Ctx) {
     let budget = Duration::from_secs(ctx.tier.pick(5, 180));
     let nthreads = 4;
     let t0 = Instant::now();
+    // injected handler panics are part of the workload: keep their messages off the terminal
+    let prev_hook = std::panic::take_hook();
+    std::panic::set_hook(Box::new(move |info| {
+        let msg = info.payload().downcast_ref::<&str>().map(|s| s.to_string()).or_else(|| info.payload().downcast_ref::<String>().cloned()).unwrap_or_default();
+        if !msg.contains("injected by the C14 stress workload") {
+            eprintln!("panic: {} at {:?}", msg, info.location());
+        }
+    }));
     par(nthreads, |w| {
         let mut rng = Rng::lane(ctx.seed, 5200 + w as u64);
         let mut n = 0usize;
@@ -141,8 +166,10 @@ pub fn run(ctx: &Ctx) {
             let (initial, max) = *rng.pick(&[(1usize, 4usize), (1, 2), (1, 3), (2, 4), (2, 2), (2, 3)]);
             let mut log = Vec::new();
             let seed_state = (w, n);
-            match history(&mut rng, initial, max, &mut log) {
-                Ok((races, qp)) => {
+            let with_panics = n % 3 == 2;
+            match history(&mut rng, initial, max, with_panics, &mut log) {
+                Ok((races, qp, panics)) => {
+                    ctx.count("stress_handler_panics_injected", panics as u64);
                     ctx.case(if races > 0 { Some(hash_of(&("stress", initial, max, &log))) } else { None });
                     ctx.count("stress_histories", 1);
                     ctx.count("stress_submissions_racing_a_job_end", races as u64);
@@ -151,7 +178,7 @@ pub fn run(ctx: &Ctx) {
                 Err(m) => {
                     ctx.case(Some(hash_of(&("stress", initial, max, &log))));
                     ctx.violation(
-                        "c14:stress:in-service-differs-from-min-outstanding-max",
+                        if log.iter().any(|l| l.contains("panics")) { "c14:stress:in-service-differs-from-min-outstanding-max:after-handler-panic" } else { "c14:stress:in-service-differs-from-min-outstanding-max" },
                         json!({"engine": "c14-stress", "initial": initial, "max": max, "lane_and_history": format!("{:?}", seed_state), "operations": log, "message": m}),
                     );
                 }
@@ -162,4 +189,6 @@ pub fn run(ctx: &Ctx) {
             n += 1;
         }
     });
+    let _ = std::panic::take_hook();
+    std::panic::set_hook(prev_hook);
 }
